@@ -942,7 +942,7 @@ func c15Round7(c *core.Ctx) {
 	// are all fine; one known-wrong form is reported.)
 	if pr := c.Fn("R15.15", "std/object", "Client", "Produce"); pr != nil {
 		nSeg, bad := 0, ""
-		core.Instrs(pr, func(in ssa.Instruction) {
+		core.InstrsDeep(pr, func(in ssa.Instruction) { // (the segmenting may sit in a private worker)
 			cl, ok := in.(*ssa.Call)
 			if !ok {
 				return
